@@ -976,14 +976,19 @@ pub fn run<'tcx>(tcx: TyCtxt<'tcx>) {
     let find_trait = |name: &str| -> Option<DefId> {
         tcx.traits(LOCAL_CRATE).iter().copied().find(|d| tcx.item_name(*d).as_str() == name)
     };
+    // (a crate may hold private stand-ins with the same identifier in a nested module — serde wire forms, say: the outermost one is meant)
     let find_adt = |name: &str| -> Option<DefId> {
+        let mut best: Option<(usize, DefId)> = None;
         for id in items.free_items() {
             let did = id.owner_id.to_def_id();
             if matches!(tcx.def_kind(did), DefKind::Struct | DefKind::Enum) && tcx.item_name(did).as_str() == name {
-                return Some(did);
+                let depth = tcx.def_path(did).data.len();
+                if best.map_or(true, |(d, _)| depth < d) {
+                    best = Some((depth, did));
+                }
             }
         }
-        None
+        best.map(|(_, d)| d)
     };
     let t_kmer = find_trait("Kmer");
     let t_mer = find_trait("Mer");
